@@ -129,11 +129,13 @@ def make_regression_inputs(outdir):
     for fmt in (0, 2, 5):
         put('convert', 'table-33000-columns-f%02d' % fmt, enc_convert(wide, fmt=fmt, ext=0x218, api=2))
     for name, doc in OPML_DOCS.items():
-        for api in range(4):
-            put('opml', '%s-api%d' % (name, api), enc_opml(doc, api=api, fmt=api))
+        for api in range(5):
+            for fmt in sorted(set((api, 11, 9, 0))):          # 11 = FORMAT_MMD: the import result itself, nothing is parsed afterwards
+                put('opml', '%s-api%d-f%d' % (name, api, fmt), enc_opml(doc, api=api, fmt=fmt))
     for name, doc in ITMZ_DOCS.items():
-        for api in range(4):
-            put('itmz', '%s-api%d' % (name, api), enc_itmz(doc, api=api, fmt=api))
+        for api in range(6):
+            for fmt in sorted(set((api, 11, 0))):
+                put('itmz', '%s-api%d-f%d' % (name, api, fmt), enc_itmz(doc, api=api, fmt=fmt))
     # committed raw artifacts (already carry their trailer)
     sd = os.path.join(common.SEEDS, PROP)
     if os.path.isdir(sd):
